@@ -143,6 +143,9 @@ def run(R, ctx):
         k = se[0][0] + 1
         res = r.get(f"variant({se[0][1][0]}#{k})")
         kinds.add(res)
+        if res is None and (upd or wr):
+            bad['activate-popped'] = "a specification is stored without examining whether the stack was empty (e.g. pop().unwrap_or_default()): a surplus pop " \
+                                     "replaces the active specification (by the default: logging off) instead of being a no-op"
         if res == 'None' and (upd or wr):
             bad['activate-popped'] = "pop on an empty stack still stores a specification"
         if res == 'Some' and wr and any(v == 'Ok' for a, v in r.cond if a.startswith('variant(std::sync::RwLock::<T>::write#')):
